@@ -103,12 +103,16 @@ def run(res, tier, seed):
         alone_ok = r.get("alone", {}).get("out", {}).get("ok") and r.get("alone_consumed_all", False)
         # the recorded finding explains extra instructions in the compiled code of the full input; it never explains a Matched
         # text that cannot be evaluated on its own
-        if KEY in known and alone_ok and lo_ops and lo_ops <= allowed_ops and not r.get("alone", {}).get("out", {}).get("panic"):
+        # ... and it covers exactly the left-over code that the pinned reference copy of the library (harness/refds) compiles for
+        # this input: left-over code the recorded grammar does not produce is a new violation
+        if KEY in known and alone_ok and lo_ops and lo_ops <= allowed_ops and r.get("ref_same_code") and \
+                not r.get("alone", {}).get("out", {}).get("panic"):
             seen_known |= lo_ops
             continue
         res.violation({"what": "evaluating Matched alone differs from evaluating the input: " + ",".join(bad),
                        "input": b.decode("utf-8", "replace"), "hex": b.hex(), "history": pre.decode(), "flags": fl, "seed_state": [str(hi), str(lo)],
                        "matched": r["full"]["out"]["matched"], "rest": r["full"]["out"]["rest"], "leftover_ops": sorted(lo_ops),
+                       "pinned_reference_compiles_the_same_code": r.get("ref_same_code"),
                        "value_full": r["full"]["out"].get("str"), "value_alone": r.get("alone", {}).get("out", {}).get("str")})
         found += 1
         if found >= 3:
